@@ -24,6 +24,7 @@ func init() {
 		Controls: []Control{
 			{Name: "idle-reactivates-a-stopped-peer", File: "protocols/bgp/server/fsm_idle.go", Old: "\tif !s.fsm.peer.passive && s.fsm.peer.reconnectInterval != 0 && !s.fsm.peer.isStopped() {\n\t\ttime.Sleep(s.fsm.peer.reconnectInterval)\n\t\t// a peer that was stopped (disposed) meanwhile does not come back on its own\n\t\tif !s.fsm.peer.isStopped() {\n\t\t\tgo s.fsm.activate()\n\t\t}\n\t}\n", New: "\tif !s.fsm.peer.passive && s.fsm.peer.reconnectInterval != 0 {\n\t\ttime.Sleep(s.fsm.peer.reconnectInterval)\n\t\tgo s.fsm.activate()\n\t}\n", Expect: "stopped-peer-does-not-restart-itself"},
 			{Name: "ipv6-settings-are-the-ipv4-object", File: "cmd/bio-rd/bgp.go", Old: "\tp.IPv6 = c.newAFIConfig(bn, bg)\n", New: "\tp.IPv6 = p.IPv4\n\tif p.IPv6 == nil {\n\t\tp.IPv6 = c.newAFIConfig(bn, bg)\n\t}\n", Expect: "each-family-has-its-own-settings"},
+			{Name: "refactor-family-settings-through-a-local", Silent: true, File: "cmd/bio-rd/bgp.go", Old: "\tp.IPv6 = c.newAFIConfig(bn, bg)\n", New: "\tafc := c.newAFIConfig(bn, bg)\n\tp.IPv6 = afc\n"},
 			{Name: "no-groups-nothing-to-do", File: "cmd/bio-rd/bgp.go", Old: "func (c *bgpConfigurator) configure(cfg *config.BGP) error {\n", New: "func (c *bgpConfigurator) configure(cfg *config.BGP) error {\n\tif len(cfg.Groups) == 0 {\n\t\treturn nil\n\t}\n", Expect: "removed-sessions-deconfigured-on-every-success"},
 			{Name: "neighbor-override-resets-both-directions", File: "cmd/bio-rd/config/bgp.go", Old: "\tif len(bn.Export) > 0 {\n\t\tbn.ExportFilterChain = filter.Chain{}\n\t}\n", New: "\tif len(bn.Export) > 0 || len(bn.Import) > 0 {\n\t\tbn.ExportFilterChain = filter.Chain{}\n\t}\n", Expect: "policy-override-is-per-direction"},
 			{Name: "reload-installs-the-configured-chain-raw", File: "protocols/bgp/server/peer.go", Old: "func (p *peer) replaceImportFilterChain(c filter.Chain) {\n\t// the same default as for a chain configured at start (see newPeer): no policy means reject all\n\tc = filterOrDefault(c)\n", New: "func (p *peer) replaceImportFilterChain(c filter.Chain) {\n", Expect: "in-place-policy-normalised-like-fresh-start"},
